@@ -251,3 +251,53 @@ func loopsVisitAll(c *core.Check, rule string, fi *core.FuncInfo, fields []strin
 	})
 	return n
 }
+
+// sortsGraph: nd is a call g.<method>() on the graph g, or a call of a function of the package that receives g and
+// (within two levels) calls <method> on the parameter it received g in.
+func sortsGraph(c *core.Check, info *types.Info, nd ast.Node, g types.Object, method string, depth int) bool {
+	call, isCall := nd.(*ast.CallExpr)
+	if !isCall {
+		return false
+	}
+	if core.IsCallTo(info, call, "d2graph.(*Graph)."+method) {
+		if sel, ok := call.Fun.(*ast.SelectorExpr); ok && core.ObjOf(info, sel.X) == g {
+			return true
+		}
+		return false
+	}
+	if depth >= 2 {
+		return false
+	}
+	callee := core.CalleeOf(info, call)
+	if callee == nil {
+		return false
+	}
+	h := c.P.Decl(callee)
+	if h == nil || h.Decl.Body == nil {
+		return false
+	}
+	sig := callee.Type().(*types.Signature)
+	for ai, a := range call.Args {
+		if core.ObjOf(info, a) != g || ai >= sig.Params().Len() {
+			continue
+		}
+		hp := sig.Params().At(ai)
+		// every exit of the helper has passed the sort of its parameter
+		hfl := core.NewFlow(h.Pkg, h.Decl.Body)
+		all := true
+		nex := 0
+		for _, ex := range hfl.Exits() {
+			nex++
+			ok, _ := hfl.MustPassBefore(ex.Blk, ex.Idx, func(m ast.Node) bool {
+				return sortsGraph(c, h.Pkg.TypesInfo, m, hp, method, depth+1)
+			})
+			if !ok {
+				all = false
+			}
+		}
+		if all && nex > 0 {
+			return true
+		}
+	}
+	return false
+}
